@@ -239,7 +239,9 @@ PROPS = {
                       "C04_timestamp_uptodate_check_pure / _checks_pure / _edit_after_checks_detected (a check ending in 'up to date' changes "
                       "nothing - no marker moved, none created -, so a source written after the last run is rebuilt however many checks lay in "
                       "between), "
-                      "C04_timestamp_skip_generates_exist, and decide-checked counterexamples to C04_full over the patched model (kill for both "
+                      "C04_timestamp_skip_generates_exist, C04_partial_queries (--status / --dry / --list --json verdicts are as sound as a run: the verdict is "
+                      "mode-independent), and decide-checked counterexamples to C04_full over the patched model (a second activation of the task in one "
+                      "invocation reported up to date while the first still runs: C04_counterexample_concurrent / C04_concurrent_root; kill for both "
                       "methods, method timestamp: never ran / failed run / generates "
                       "rewritten by others - one root: a generates file as new as the sources vouches on its own). Tie: Gen.DryWiring / "
                       "Gen.FingerOrder tables (incl. the definitions of the timestamp verdict variables, the touchMarker closure, "
@@ -575,6 +577,9 @@ FINDING_PREDICATES.update({
     "C04-normalised-name-collision": _c04(_same_key),
     # (… or by a different checksum task with the same display name (label): FIXED by fix F8A, the checksum file is a function of
     # task name AND label; no predicate: such a skip is a violation again)
+    # "up to date" was said by a SECOND activation of the task while the first activation of the same invocation was still running
+    # its commands (twin=1): the fingerprint is recorded at check time — the root of the kill finding, reached without any kill
+    "C04-concurrent-activation-skipped": _c04(lambda m, f: f.get("twin") == "1" and f.get("kind") == "skip-not-good"),
     # method timestamp, last run fine, but a generates pattern matches nothing (FIXED by TS1)
     "C04-timestamp-missing-generates": _c04(lambda m, f: f.get("method") == "timestamp" and f.get("gens") == "0" and f.get("laexit") == "ok"),
     # method timestamp, the commands never ran: the generates' mtimes alone decided (no marker), or the marker a check created
